@@ -97,7 +97,7 @@ func defaultLimiterCase(t *testing.T, idx int64, r *rand.Rand) {
 	pIgnore, pDrop := []float64{0, 0.1, 0.3}[r.IntN(3)], []float64{0, 0.03, 0.2, 1}[r.IntN(4)]
 	var log []string
 	deliveries, midDrops := 0, 0
-	synctest.Test(t, func(t *testing.T) {
+	bubble(t, func(t *testing.T) {
 		f := newFold()
 		var nextUpdate int64 // model of the earliest instant after which the next delivery may happen
 		var hs []held
@@ -344,4 +344,9 @@ func TestCheck(t *testing.T) {
 			windowedCase(idx, r)
 		}
 	})
+}
+
+// bubble runs f in a synctest bubble; a bubble that cannot end (goroutines left blocked) is recorded, not fatal.
+func bubble(t *testing.T, f func(*testing.T)) {
+	rt.Bubble(func() { synctest.Test(t, f) }, "C09")
 }
